@@ -19,7 +19,8 @@ from ..server.codec import codec_for
 SHARDS = {'quick': 8, 'thorough': 16}
 
 SCENARIOS = ['status', 'status-login', 'login-compressed', 'login-encrypted',
-             'play-plain', 'plain-status']
+             'play-plain', 'plain-status', 'status-default-outside',
+             'plain-status-ping']
 
 
 def play_traffic(io, codec, rng_bytes):
@@ -52,8 +53,12 @@ def make_handler(scenario, pv, budget, abrupt, state, rng_bytes):
         except mcserver.ScriptTimeout:
             state['client_never_closed'] = True
 
-    def login_and_play(io, threshold, encrypted):
-        hs = scripts.read_handshake(io)
+    def login_after_handshake(io, hs):
+        return login_and_play(io, None, False, hs)
+
+    def login_and_play(io, threshold, encrypted, hs=None):
+        if hs is None:
+            hs = scripts.read_handshake(io)
         state.setdefault('handshakes', []).append(hs)
         # speak the protocol the client announced (the fallback login uses the
         # default version, not the one the status reply would have named)
@@ -89,7 +94,9 @@ def make_handler(scenario, pv, budget, abrupt, state, rng_bytes):
     def handler(io):
         first = io.index == 0
         cut_here = (scenario in ('status', 'login-compressed',
-                                 'login-encrypted', 'play-plain') and first) \
+                                 'login-encrypted', 'play-plain',
+                                 'status-default-outside',
+                                 'plain-status-ping') and first) \
             or (scenario in ('status-login', 'plain-status')
                 and io.index == 1)
         if cut_here:
@@ -102,7 +109,39 @@ def make_handler(scenario, pv, budget, abrupt, state, rng_bytes):
                 finish(io)
                 return
         try:
-            if scenario == 'plain-status':
+            if scenario == 'plain-status-ping':
+                # a plain status query with latency measurement: response,
+                # then (after the client's ping has been read) the pong
+                hs = scripts.read_handshake(io)
+                state.setdefault('handshakes', []).append(hs)
+                if io.recv_frame() is None:
+                    return
+                from ..ref import core_packets as ref
+                io.send_frame(0x00, ref.encode_field('string', json.dumps(
+                    {'version': {'name': 'vf', 'protocol': pv}})),
+                    label='ResponsePacket')
+                fr = io.recv_frame()
+                if fr is None:
+                    return
+                io.send_frame(0x01, fr[1], label='PingResponsePacket')
+            elif scenario == 'status-default-outside':
+                hs = scripts.read_handshake(io)
+                state.setdefault('handshakes', []).append(hs)
+                if hs and hs['next_state'] == 1:
+                    if io.index == 0:
+                        # the status connection under cut
+                        f = io.recv_frame()
+                        if f is not None:
+                            from ..ref import core_packets as ref
+                            io.send_frame(0x00, ref.encode_field(
+                                'string', json.dumps({'version': {
+                                    'name': 'vf', 'protocol': pv}})),
+                                label='ResponsePacket')
+                    # a *further* status query is answered by closing again
+                else:
+                    state['handshakes'].pop()
+                    login_after_handshake(io, hs)
+            elif scenario == 'plain-status':
                 # 0: a negotiation that ends in a version mismatch (leaves the
                 # negotiation reactor behind); 1: the plain status query under
                 # cut; anything further would be a login nobody asked for
@@ -141,7 +180,13 @@ def one_case(run, scenario, pv, default_pv, k, abrupt, rng_bytes, hook_log):
     w = {'scenario': scenario, 'pv': pv, 'cut_at': k, 'abrupt': abrupt}
     conn = None
     try:
-        if scenario in ('status', 'status-login', 'plain-status'):
+        if scenario == 'status-default-outside':
+            # the default version is *not* one of the allowed versions
+            third = 340 if 340 not in (pv, default_pv) else 404
+            conn = pc.make_connection(server.port, rec,
+                                      allowed_versions={pv, third},
+                                      initial_version=default_pv)
+        elif scenario in ('status', 'status-login', 'plain-status'):
             allowed = {pv, default_pv}
             conn = pc.make_connection(server.port, rec,
                                       allowed_versions=allowed,
@@ -174,9 +219,25 @@ def one_case(run, scenario, pv, default_pv, k, abrupt, rng_bytes, hook_log):
                             handle_ping=False)
             finally:
                 C.StatusReactor.__init__ = orig_init
+        elif scenario == 'plain-status-ping':
+            conn.status(handle_status=rec.statuses.append,
+                        handle_ping=rec.pings.append)
         else:
             conn.connect()
-        done = pc.wait_idle(conn, 20.0)
+        done = False
+        for _ in range(20):
+            done = pc.wait_idle(conn, 1.0)
+            if done or len(server.connections) > 6:
+                break
+        if not done and len(server.connections) > 4:
+            # not blocked but busy: the client keeps opening connections
+            n = len(server.connections)
+            server.stop()
+            pc.wait_idle(conn, 10.0)
+            run.violation('eof/fallback-loop', 'after a conversation that was '
+                          'cut short the client kept opening connections',
+                          dict(w, connections=n))
+            return 'ok', w
         if not done:
             return None, 'threads alive after watchdog (blocked?):\n' + \
                 pc.dump_threads()
@@ -223,6 +284,44 @@ def one_case(run, scenario, pv, default_pv, k, abrupt, rng_bytes, hook_log):
         conns = len(server.connections)
         hs = state.get('handshakes', [])
         finished_clean = rec.exits >= 1 and not rec.exceptions
+        if scenario == 'plain-status-ping':
+            if cut and not rec.exceptions:
+                run.violation('eof/silent/plain-status-ping', 'a status query '
+                              'with latency measurement whose conversation '
+                              'was cut short reported no error',
+                              dict(w, exits=rec.exits,
+                                   statuses=len(rec.statuses),
+                                   pings=len(rec.pings)))
+            elif not cut and (rec.exceptions or len(rec.pings) != 1):
+                run.violation('eof/complete-conversation-failed', 'complete '
+                              'status+ping conversation, yet error or no '
+                              'latency', dict(w, exc=repr(rec.exceptions[:1])))
+            elif cut:
+                run.count('errors_reported')
+                run.count('cuts.' + (phase or 'x'))
+            return 'ok', w
+        if scenario == 'status-default-outside':
+            logins = [h for h in hs if h and h['next_state'] == 2]
+            statuses = [h for h in hs if h and h['next_state'] == 1]
+            if cut:
+                run.count('cuts.' + (phase or 'x'))
+                if conns > 2 or len(statuses) > 1:
+                    run.violation('eof/fallback-loop', 'after an unanswered '
+                                  'status query the client kept opening '
+                                  'connections instead of logging in once with'
+                                  ' the default version', dict(
+                                      w, connections=conns,
+                                      status_queries=len(statuses)))
+                elif not rec.exceptions and not (
+                        len(logins) == 1 and
+                        logins[0]['protocol'] == default_pv):
+                    run.violation('eof/silent/status', 'neither an error nor '
+                                  'the default-version fallback followed',
+                                  dict(w, connections=conns))
+                else:
+                    run.count('status_fallbacks')
+                    run.count('errors_reported')
+            return 'ok', w
         if scenario == 'plain-status':
             if conns > 2:
                 run.violation('eof/status-query-became-login', 'a plain '
@@ -389,7 +488,7 @@ def run(run):
                             run.sample(w)
     finally:
         threading.excepthook = old_hook
-    run.require('scenarios', 6)
+    run.require('scenarios', 8)
     run.require('errors_reported', 20)
     run.require('cuts.inside-frame', 10)
     run.require('cuts.frame-boundary', 20)
